@@ -151,13 +151,99 @@ def task(args):
     return res
 
 
+def grid_programs():
+    """exhaustive small domains, one binding per program (so an expected failure hides nothing):
+    ranges, integer and float arithmetic and comparisons, select on booleans, casts, `is`, `in`"""
+    I = lambda n: ("int", n) if n >= 0 else ("bin", "-", ("int", 0), ("int", -n))
+    out = []
+    for a in range(0, 7):
+        for b in range(0, 7):
+            for st in (None, 1, 2, 3, 5, 7, 0):
+                out.append(("range", ("range", I(a), None if st is None else I(st), I(b))))
+    for a in (-3, 0, 2):
+        for b in (-4, -1, 3):
+            for st in (None, 1, 2, 4, -1):
+                out.append(("range-neg", ("range", I(a), None if st is None else I(st), I(b))))
+    ints = [-7, -2, -1, 0, 1, 2, 3, 7]
+    for x in ints:
+        for y in ints:
+            for op in ("+", "-", "*", "/", "%%", "<", ">", "<=", ">=", "==", "!="):
+                out.append(("int-" + op, ("bin", op, I(x), I(y))))
+    F = lambda v: ("float", repr(v)) if v >= 0 else ("bin", "-", ("float", "0.0"), ("float", repr(-v)))
+    floats = [-2.5, -1.0, 0.0, 0.5, 1.0, 2.5]
+    for x in floats:
+        for y in floats:
+            for op in ("+", "-", "*", "/", "<", ">", "<=", ">=", "==", "!="):
+                out.append(("float-" + op, ("bin", op, F(x), F(y))))
+    vals = {"int": I(3), "float": ("float", "1.5"), "str": ("str", "s"), "bool": ("bool", True), "null": ("null",), "list": ("list", [I(1)]),
+            "tuple": ("tuple", [("a", I(1))]), "func": ("func", ["p"], ("sym", "p")), "module": ("module", [], None, [("let", "r", I(1))]),
+            "empty-list": ("list", []), "empty-tuple": ("tuple", []), "empty-str": ("str", "")}
+    for vn, v in vals.items():
+        for tn in ("null", "str", "int", "float", "tuple", "list", "func", "module", "bool", "nosuch"):
+            out.append(("is", ("bin", "is", v, ("str", tn))))
+        for cast in ("int", "float", "str", "bool"):
+            out.append(("cast-" + cast, ("cast", cast, v)))
+        for wn, w in vals.items():
+            if vn in ("func", "module") or wn in ("func", "module"):
+                continue
+            out.append(("eq-mixed", ("bin", "==", v, w)))
+            out.append(("plus-mixed", ("bin", "+", v, w)))
+            out.append(("in-list", ("bin", "in", v, ("list", [w, I(9)]))))
+        out.append(("in-tuple", ("bin", "in", ("str", "a"), v)))
+        out.append(("not", ("not", v)))
+        out.append(("and", ("bin", "&&", ("bool", True), v)))
+        out.append(("or", ("bin", "||", ("bool", False), v)))
+        out.append(("select-on", ("select", v, I(0), [("true", I(1)), ("s", I(2)), ("3", I(3))])))
+    for s_ in ("12", "-3", "007", " 1", "1 ", "1.5", "", "x", "1e3", "+4", "9223372036854775807", "9223372036854775808", "true", "True", "false", "0"):
+        for cast in ("int", "float", "bool", "str"):
+            out.append(("cast-str-" + cast, ("cast", cast, ("str", s_))))
+    for cond in (True, False):
+        for arms in (["true", "false"], ["false", "true"], ["true"], ["false"], ["x", "true"], ["false", "x"], ["x"], []):
+            for dflt in (None, I(9)):
+                if not arms and dflt is None:
+                    continue
+                out.append(("select-bool", ("select", ("bool", cond), dflt, [(a, I(i + 1)) for i, a in enumerate(arms)])))
+    return out
+
+
+def task_grid(args):
+    idx, nshards = args
+    res = core.Result()
+    probe = core.Probe()
+    for i, (label, e) in enumerate(grid_programs()):
+        if i % nshards != idx:
+            continue
+        stmts = [("let", "g", e)]
+        v, d, text = judge_program(probe, stmts)
+        res.case(text, nontrivial=True)
+        res.count("grid:" + label)
+        if v == "violated":
+            v2, d2, _ = judge_program(probe, stmts, fresh=True)
+            if v2 == "violated":
+                res.violation(["grid", label, d2.get("kind")], {"text": text, "ast_repr": repr(stmts)}, d2)
+        elif v == "held":
+            res.count("outcome:" + d["outcome"])
+        elif v == "unspec":
+            res.count("outcome:no-verdict-unspecified")
+        elif v == "crash":
+            res.count("outcome:crash-left-to-C04")
+        else:
+            res.inconclusive += 1
+    probe.stop()
+    return res
+
+
+def dispatch(t):
+    return task_grid(t[1]) if t[0] == "grid" else task(t)
+
+
 def run(tier, seed, t0):
     n = core.tier_pick(tier, 16000, 400000)
     depth = core.tier_pick(tier, 4, 6)
     nst = core.tier_pick(tier, 8, 12)
     shards = 64 if tier == "quick" else 256
-    tasks = [(seed, i, n // shards, depth, nst) for i in range(shards)]
-    res = core.run_parallel(task, tasks)
+    tasks = [(seed, i, n // shards, depth, nst) for i in range(shards)] + [("grid", (i, 16)) for i in range(16)]
+    res = core.run_parallel(dispatch, tasks)
     return core.finish("C01", tier, seed, res, RULE, t0, replay_known=replay_known,
                        assumptions=["vf/refint.py is my reading of docsite/site/content/reference/*.md; rules the "
                                     "reference does not state yield no verdict (counted under unspec:*)",
